@@ -165,7 +165,22 @@ func scanServices(r *Run) ([]*svcPkg, error) {
 				}
 			}
 		}
-		// other files of the package may declare more types (none today) – keep to service.go
+		// endpoints.go declares <Method>RequestData / <Method>ResponseData for
+		// methods that stream the HTTP request / response body themselves
+		// (SkipRequestBodyEncodeDecode / SkipResponseBodyEncodeDecode)
+		if ef, err := parser.ParseFile(token.NewFileSet(), filepath.Join(r.Dir, "gen", e.Name(), "endpoints.go"), nil, 0); err == nil {
+			for _, d := range ef.Decls {
+				if gd, ok := d.(*ast.GenDecl); ok {
+					for _, s := range gd.Specs {
+						if ts, ok := s.(*ast.TypeSpec); ok && ts.Name.IsExported() && (strings.HasSuffix(ts.Name.Name, "RequestData") || strings.HasSuffix(ts.Name.Name, "ResponseData")) {
+							if _, isStruct := ts.Type.(*ast.StructType); isStruct {
+								sp.Types = append(sp.Types, ts.Name.Name)
+							}
+						}
+					}
+				}
+			}
+		}
 		if _, err := os.Stat(filepath.Join(r.Dir, "gen", "http", e.Name(), "server", "server.go")); err == nil {
 			sp.HasHTTP = true
 		}
